@@ -332,6 +332,9 @@ impl Scenario for C04Sweep {
 
 #[derive(Serialize, Deserialize, Clone, Debug, PartialEq, Eq)]
 pub struct HistPlan {
+	/// native stack of the evaluating thread in KiB (None = 16 MiB, ample)
+	#[serde(default)]
+	pub thread_stack_kib: Option<usize>,
 	pub salt: Option<u64>,
 	pub ops: Vec<(usize, Prog, Option<usize>)>,
 }
@@ -380,9 +383,14 @@ impl Scenario for C04History {
 			ops.push((rng.below(2), prog, limit));
 		}
 		HistPlan {
+			// the native stack an embedder's thread has: Rust's default is 2 MiB (S8)
+			thread_stack_kib: *rng.pick(&[None, None, Some(512usize), Some(2048)]),
 			salt: if rng.chance(1, 3) { None } else { Some(rng.next_u64()) },
 			ops,
 		}
+	}
+	fn stack_size(&self, plan: &HistPlan) -> usize {
+		plan.thread_stack_kib.map_or(16 << 20, |k| k << 10)
 	}
 	fn execute(&self, plan: &HistPlan, rec: &mut Recorder) {
 		jrsonnet_interner::verif::set_hash_salt(plan.salt);
